@@ -1107,7 +1107,10 @@ fn batch_case(ctx: &mut Ctx, id: &str, rng: &mut Rng, declared: Declared, n_fals
     // false claims
     let mut false_groups: Vec<usize> = vec![];
     let mut left = n_false;
-    while left > 0 && false_groups.len() < positions.len() {
+    // (bounded: once every (polynomial, point) key is falsified no further claim can be moved)
+    let mut tries = 0;
+    while left > 0 && false_groups.len() < positions.len() && tries < 8 * positions.len() + 8 {
+        tries += 1;
         let (k, j) = positions[range(rng, 0, positions.len() - 1)];
         let key = (format!("p{}", j), groups[k].1.clone());
         let truth = plain[j].evaluate(&groups[k].1);
@@ -1274,6 +1277,15 @@ fn quotient_at_padded(f: &MvPoly, z: &[Fr], betas: &[Fr], i: usize) -> Option<Fr
 
 /// Model-backed PST13 cases of the shared properties (wired from main.rs).
 pub fn run_prop(ctx: &mut Ctx, prop: &str) {
+    let t0 = std::time::Instant::now();
+    run_prop_inner(ctx, prop);
+    let secs = t0.elapsed().as_secs_f64();
+    if secs > 0.05 {
+        ctx.rep.notes.push(format!("pst13 cases of {} ({}): {:.1}s", prop, if ctx.thorough { "thorough" } else { "quick" }, secs));
+    }
+}
+
+fn run_prop_inner(ctx: &mut Ctx, prop: &str) {
     match prop {
         "C01" => {
             let n = ctx.n(16, 200);
@@ -1313,7 +1325,7 @@ pub fn run_prop(ctx: &mut Ctx, prop: &str) {
             ctx.flush_model("C05-pst13");
         }
         "C03" => {
-            let n = ctx.n(12, 120);
+            let n = ctx.n(12, 80);
             for i in 0..n {
                 shape_case(ctx, i);
             }
@@ -1349,7 +1361,7 @@ pub fn run_prop(ctx: &mut Ctx, prop: &str) {
             }
         }
         "C10" => {
-            let n = ctx.n(12, 150);
+            let n = ctx.n(10, 60);
             for i in 0..n {
                 relation_case(ctx, i);
             }
